@@ -216,13 +216,15 @@ func (l *List) M__getitem__(key Object) (Object, error) {
 
 func (l *List) M__setitem__(key, value Object) (Object, error) {
 	if slice, ok := key.(*Slice); ok {
-		start, stop, step, slicelength, err := slice.GetIndices(len(l.Items))
+		// Read the new items first: value may be the list itself (or
+		// share its storage), and nothing may change if reading fails.
+		// Reading may run Python code (a generator) that changes the
+		// list, so the indices are worked out afterwards.
+		newItems, err := SequenceTuple(value)
 		if err != nil {
 			return nil, err
 		}
-		// Read the new items first: value may be the list itself (or
-		// share its storage), and nothing may change if reading fails.
-		newItems, err := SequenceTuple(value)
+		start, stop, step, slicelength, err := slice.GetIndices(len(l.Items))
 		if err != nil {
 			return nil, err
 		}
